@@ -5,16 +5,16 @@
 (* every step the driver logs the real template store and the state of every harness timer.    *)
 EXTENDS TemplateLife, TraceBase
 
-VARIABLE l
-vars == << tlvars, l >>
+VARIABLES l, rtlast       \* rtlast: real-time runs: key -> ms of the latest valid (re)transmission (-1: none)
+vars == << tlvars, l, rtlast >>
 ev == Log[l]
 IsEvent(e) == l <= Len(Log) /\ Log[l].e = e /\ l' = l + 1
 
-Init == TLInit /\ l = 1
+Init == TLInit /\ l = 1 /\ rtlast = [k \in Keys |-> -1]
 
 TReset == /\ IsEvent("Reset")
           /\ now' = 0 /\ store' = [k \in Keys |-> None] /\ timers' = << >> /\ cbs' = << >>
-          /\ last' = [k \in Keys |-> -1]
+          /\ last' = [k \in Keys |-> -1] /\ rtlast' = [k \in Keys |-> -1]
 
 \* projection of the real state logged after the step
 Obs ==
@@ -29,14 +29,32 @@ Obs ==
                                   /\ (timers'[o].armed => ev.timers[o].deadline = timers'[o].deadline)
   /\ ev.inflight = Len(cbs')
 
-TTemplate    == IsEvent("Template") /\ ev.ok /\ Template(ev.k, ev.v) /\ Obs
-TBadTemplate == IsEvent("BadTemplate") /\ ~ev.ok /\ BadTemplate(ev.k) /\ Obs
-TData        == IsEvent("Data") /\ Data(ev.k) /\ ev.accepted = Accepts(ev.k) /\ Obs
-TTick        == IsEvent("Tick") /\ Tick /\ Obs
-TFire        == IsEvent("Fire") /\ Fire(ev.o) /\ Obs
-TCbRead      == IsEvent("CbRead") /\ CbRead(ev.i) /\ Obs
-TCbRun       == IsEvent("CbRun") /\ CbRun(ev.i) /\ Obs
+TTemplate    == IsEvent("Template") /\ ev.ok /\ Template(ev.k, ev.v) /\ Obs /\ UNCHANGED rtlast
+TBadTemplate == IsEvent("BadTemplate") /\ ~ev.ok /\ BadTemplate(ev.k) /\ Obs /\ UNCHANGED rtlast
+TData        == IsEvent("Data") /\ Data(ev.k) /\ ev.accepted = Accepts(ev.k) /\ Obs /\ UNCHANGED rtlast
+TTick        == IsEvent("Tick") /\ Tick /\ Obs /\ UNCHANGED rtlast
+TFire        == IsEvent("Fire") /\ Fire(ev.o) /\ Obs /\ UNCHANGED rtlast
+TCbRead      == IsEvent("CbRead") /\ CbRead(ev.i) /\ Obs /\ UNCHANGED rtlast
+TCbRun       == IsEvent("CbRun") /\ CbRun(ev.i) /\ Obs /\ UNCHANGED rtlast
 
-Next == TReset \/ TTemplate \/ TBadTemplate \/ TData \/ TTick \/ TFire \/ TCbRead \/ TCbRun
+(* Real-time binding (engine B'): the same collector with the REAL clock (time.AfterFunc) and a 1 s      *)
+(* lifetime; events carry the wall-clock time in ms.  Only what is robust against scheduling jitter is   *)
+(* asserted: a data set well inside the lifetime after the latest (re)transmission is accepted, one well *)
+(* after it is rejected; in between either answer is allowed.                                           *)
+RTSlack == 350
+RTTtl == 1000
+TRTemplate == /\ IsEvent("RTemplate") /\ ev.ok
+              /\ rtlast' = [rtlast EXCEPT ![ev.k] = ev.ms]
+              /\ UNCHANGED tlvars
+TRBad == /\ IsEvent("RBadTemplate") /\ ~ev.ok
+         /\ rtlast' = [rtlast EXCEPT ![ev.k] = -1]
+         /\ UNCHANGED tlvars
+TRData == /\ IsEvent("RData")
+          /\ (rtlast[ev.k] < 0) => ~ev.accepted
+          /\ (rtlast[ev.k] >= 0 /\ ev.ms1 < rtlast[ev.k] + RTTtl - RTSlack) => ev.accepted       \* not dropped early
+          /\ (rtlast[ev.k] >= 0 /\ ev.ms0 > rtlast[ev.k] + RTTtl + RTSlack) => ~ev.accepted       \* discarded after its lifetime
+          /\ UNCHANGED << tlvars, rtlast >>
+
+Next == TRTemplate \/ TRBad \/ TRData \/ TReset \/ TTemplate \/ TBadTemplate \/ TData \/ TTick \/ TFire \/ TCbRead \/ TCbRun
 Spec == Init /\ [][Next]_vars
 =============================================================================
